@@ -718,16 +718,16 @@ class TimeDependentConnections:
                             worksheet.write(current_row, attribute_index[attribute], val)
                             update_widths(widths, attribute_index[attribute], val)
 
-                    if self.write_units:
+                    if write_units:
                         worksheet.write(current_row, units_index, ts.units, format)
                         update_widths(widths, units_index, ts.units)
                         if self.allowed_units:
                             worksheet.data_validation(xlrc(current_row, units_index), {"validate": "list", "source": [x for x in self.allowed_units]})
 
-                    if self.write_uncertainty:
+                    if write_uncertainty:
                         worksheet.write(current_row, uncertainty_index, ts.sigma, formats["not_required"])
 
-                    if self.write_assumption:
+                    if write_assumption:
                         worksheet.write(current_row, constant_index, ts.assumption, format)
                         if len(self.tvec):
                             worksheet.write_formula(current_row, constant_index + 1, gate_content("OR", entry_cell), formats["center"], value="OR")
@@ -738,15 +738,15 @@ class TimeDependentConnections:
                     worksheet.write_formula(current_row, 1, gate_content("--->", entry_cell), formats["center"], value="...")
                     worksheet.write_formula(current_row, 2, gate_content(references[to_pop], entry_cell), formats["center_bold"], value="...")
 
-                    if self.write_units:
+                    if write_units:
                         worksheet.write_blank(current_row, units_index, "", format)
                         if self.allowed_units:
                             worksheet.data_validation(xlrc(current_row, units_index), {"validate": "list", "source": [x for x in self.allowed_units]})
 
-                    if self.write_uncertainty:
+                    if write_uncertainty:
                         worksheet.write_blank(current_row, uncertainty_index, "", formats["not_required"])
 
-                    if self.write_assumption:
+                    if write_assumption:
                         worksheet.write_blank(current_row, constant_index, "", format)
                         if len(self.tvec):
                             worksheet.write_formula(current_row, constant_index + 1, gate_content("OR", entry_cell), formats["center"], value="...")
@@ -769,7 +769,7 @@ class TimeDependentConnections:
                 if not content:
                     idx = 0
 
-                if self.write_assumption and len(self.tvec):
+                if write_assumption and len(self.tvec):
                     # Conditional formatting for the assumption, depending on whether time-values were entered
                     fcn_empty_times = 'COUNTIF(%s:%s,"<>" & "")>0' % (xlrc(current_row, offset), xlrc(current_row, offset + idx))
                     worksheet.conditional_format(xlrc(current_row, constant_index), {"type": "formula", "criteria": "=" + fcn_empty_times, "format": formats["ignored"]})
